@@ -21,6 +21,9 @@ lines and then checks
                         optional, as in OpenMP), every loop directive is
                         attached to a DO.
 
+  R5 serial nesting   : no ``!$omp single``/``master`` closely nested (no parallel
+                        construct in between) inside another single/master.
+
 Directives the property text and OpenMP both allow are NOT flagged: orphaned
 taskloop/single/master, target anywhere, parallel inside target and so on are left
 to the compiler oracle.
@@ -38,6 +41,7 @@ OMP_PARALLEL = ("omp parallel", "omp parallel do",
 OMP_LOOPDIRS = ("omp do", "omp parallel do",
                 "omp teams distribute parallel do", "omp loop", "omp taskloop")
 ACC_COMPUTE = ("acc parallel", "acc kernels")
+OMP_SERIAL = ("omp single", "omp master")
 
 # longest first
 _OMP_BLOCK = ["teams distribute parallel do", "parallel do", "parallel",
@@ -303,6 +307,18 @@ def check(text):
                 out.append((f"struct:nested-parallel:{node.name}<{outer[0]}",
                             f"{where} is nested inside an '!${outer[0]}' "
                             f"region"))
+        # R5: serial (work-sharing SINGLE / MASTER) regions closely nested in
+        # one another, i.e. with no parallel construct in between (OpenMP 5.0
+        # 2.20 nesting restrictions; PSyclone promises a GenerationError)
+        if node.name in OMP_SERIAL:
+            for outer in anc:
+                if outer in OMP_PARALLEL:
+                    break
+                if outer in OMP_SERIAL:
+                    out.append((f"struct:serial-in-serial:{node.name}<{outer}",
+                                f"{where} is closely nested inside an "
+                                f"'!${outer}' region"))
+                    break
         # R3
         if node.collapse and node.collapse > 1 and \
                 (node.name in OMP_LOOPDIRS or node.kind == "accloop"):
